@@ -902,6 +902,8 @@ class EditableParentImpl(BaseParentImpl):
                                          io_args=dargs)
 
         try:
+            if name in self.namespace and name not in self.refs:
+                raise ValueError    # name taken by a cells or a space
             self.set_attr(name, result)
         except (ValueError, KeyError, AttributeError):
             self.system.iomanager.del_spec(result)
@@ -920,6 +922,8 @@ class EditableParentImpl(BaseParentImpl):
             io_args={"file_type": file_type}
         )
         try:
+            if name in self.namespace and name not in self.refs:
+                raise ValueError    # name taken by a cells or a space
             self.set_attr(name, data)
         except (ValueError, KeyError, AttributeError):
             self.system.iomanager.del_spec(spec)
@@ -940,6 +944,8 @@ class EditableParentImpl(BaseParentImpl):
         )
 
         try:
+            if name in self.namespace and name not in self.refs:
+                raise ValueError    # name taken by a cells or a space
             self.set_attr(name, spec.value)
         except (ValueError, KeyError, AttributeError):
             self.system.iomanager.del_spec(spec)
